@@ -676,7 +676,7 @@ class _ExpressionParser:
             except _IntermediateError as e:
                 if e.at is None:
                     at = pos
-                    count = self._next.pos - pos if self._next.pos > pos else len(self._next.data)
+                    count = self._next.pos - pos if self._next.pos > pos else len(self._next.data or ' ')
                 else:
                     at = e.at
                     count = 1 if e.count is None else e.count
